@@ -69,8 +69,14 @@ macro_rules! build_cfg {
         }
         if let Some(i) = &spec.ip {
             let mut f = $krate::IpFilter::new();
-            for a in &i.addrs {
-                f = f.allow(&a.to_string()).expect("valid address");
+            // both builder entry points: one `allow` per address, or the whole list through `allow_list`
+            if i.addrs.len() % 2 == 1 {
+                let texts: Vec<String> = i.addrs.iter().map(|a| a.to_string()).collect();
+                f = f.allow_list(texts.iter().map(|t| t.as_str()).collect()).expect("valid addresses");
+            } else {
+                for a in &i.addrs {
+                    f = f.allow(&a.to_string()).expect("valid address");
+                }
             }
             match i.side {
                 Side::Both => {}
@@ -85,8 +91,13 @@ macro_rules! build_cfg {
         }
         if let Some(s) = &spec.subnet {
             let mut f = $krate::SubnetFilter::new();
-            for (a, p) in &s.nets {
-                f = f.allow(&format!("{}/{}", a, p)).expect("valid cidr");
+            if s.nets.len() % 2 == 1 {
+                let texts: Vec<String> = s.nets.iter().map(|(a, p)| format!("{}/{}", a, p)).collect();
+                f = f.allow_list(texts.iter().map(|t| t.as_str()).collect()).expect("valid cidrs");
+            } else {
+                for (a, p) in &s.nets {
+                    f = f.allow(&format!("{}/{}", a, p)).expect("valid cidr");
+                }
             }
             match s.side {
                 Side::Both => {}
